@@ -1202,6 +1202,13 @@ def witness_programs():
         out.append(('array: assign(tuple / scalar / bad item)', aattr, [1, 2] if aattr == 'arr' else ['a'], [{'op': 'assign', 'v': {'$t': [vv, vv]}}, {'op': 'flush'},
                     {'op': 'take', 'var': 'y', 'path': []}, {'op': 'call', 't': 'lmut', 'n': 'append', 'var': 'y', 'v': vv}, {'op': 'assign', 'v': vv}, {'op': 'assign', 'v': [vv, None]},
                     {'op': 'take', 'var': 'y2', 'path': []}, {'op': 'call', 't': 'lmut', 'n': 'append', 'var': 'y2', 'v': vv}], False))
+    # wrappers that outlive their object's session / a deleted object / a rollback: the call changes the value in memory and raises,
+    # the database keeps what was committed
+    ap9 = {'op': 'call', 't': 'lmut', 'n': 'append', 'var': 'y', 'v': 9}
+    for dead_op in ('end', 'delete', 'rollback'):
+        out.append(('%s, then a change through a wrapper taken before' % dead_op, 'data', DOC, [{'op': 'take', 'var': 'y', 'path': ['l', 1, 1]}, dict(ap9, v=8), {'op': dead_op}, ap9,
+                    {'op': 'take', 'var': 'z', 'path': ['d']}, {'op': 'call', 't': 'dmut', 'n': 'setitem', 'var': 'z', 'key': 'q', 'v': [1]}, {'op': 'other'},
+                    {'op': 'assign', 'v': 5}], False))
     # a mutator that raises after it has already changed the container; the caller catches the exception; the value in a new
     # session must be the in-memory value
     HET = {'$d': [['items', [1, 3, 2, None]], ['d', {'$d': []}]]}
